@@ -356,7 +356,7 @@ def memo_key_adequacy(rep: Report, rule: str, funcs: Iterable[FuncInfo]) -> int:
 
 # ------------------------------------------------------------------------------------ T19b one-shot local consumed twice
 ONE_SHOT_CALLS = {"map", "filter", "zip", "iter", "reversed", "enumerate", "chain", "from_iterable", "islice", "product"}
-CONSUMERS = {"all", "any", "list", "tuple", "set", "frozenset", "sum", "max", "min", "sorted", "dict", "len", "next", "extend", "update", "join"}
+CONSUMERS = {"all", "any", "list", "tuple", "set", "frozenset", "sum", "max", "min", "sorted", "dict", "len", "extend", "update", "join"}
 
 
 def one_shot_local_consumed_twice(rep: Report, rule: str, funcs: Iterable[FuncInfo]) -> int:
